@@ -34,8 +34,9 @@ var (
 	dNetf    = netip.MustParsePrefix("192.168.0.6/30")
 	dDNS     = netip.MustParseAddr("8.8.4.4")
 	dFamDNS  = netip.MustParseAddr("1.1.1.3")
-	dClients = [][]byte{env.MAC1, env.MAC2, env.MAC3}
+	dClients = [][]byte{env.MAC1, env.MAC2, env.MAC3, env.MAC1}       // c4 shares the hardware address of c1 but identifies itself with its own client identifier
 	dCID3    = []byte{0x01, 0xc3, 0xc3, 0xc3, 0xc3, 0xc3, 0xc3, 0x33} // explicit client identifier of c3
+	dCID4    = []byte{0x00, 0xc4, 0xc4, 0xc4, 0xc4, 0x44}             // explicit client identifier of c4
 	dOther   = []byte{0x02, 0x00, 0x00, 0x00, 0x02, 0x04}
 	dLease   = 4 * time.Hour
 	dFile    = "leases.yaml"
@@ -101,7 +102,11 @@ func dhcpAlphabet() []dEvent {
 		// two hours pass (longer than the session's purge deadline, shorter than the lease) and the minute ticker runs
 		dEvent{Kind: "tick", Dur: 2 * time.Hour},
 		// the lease time passes but the application has not called MinuteTicker yet (it does so once a minute)
-		dEvent{Kind: "sleep", Dur: dLease + time.Second})
+		dEvent{Kind: "sleep", Dur: dLease + time.Second},
+		// a REQUEST that names another server, carries the client's address in ciaddr and has no requested-address option
+		dEvent{Kind: "request", K: 0, Req: "otherrenew"},
+		// c4: the hardware address of c1 with another client identifier
+		dEvent{Kind: "discover", K: 3, Req: "none"}, dEvent{Kind: "request", K: 3, Req: "last"}, dEvent{Kind: "request", K: 3, Req: "rebootother"})
 	return a
 }
 
@@ -141,7 +146,7 @@ func (o *dObserver) expire(now int64) {
 
 func (o *dObserver) key() string {
 	var parts []string
-	for k := 0; k < 3; k++ {
+	for k := 0; k < len(dClients); k++ {
 		if a, ok := o.acks[k]; ok {
 			parts = append(parts, fmt.Sprintf("c%d=%v", k, a.ip))
 		}
@@ -156,6 +161,26 @@ func (o *dObserver) key() string {
 		}
 	}
 	return strings.Join(parts, ",")
+}
+
+// dID is the client identifier of client k: the option 61 value when it sends one, else its hardware address.
+func dID(k int) []byte {
+	switch k {
+	case 2:
+		return dCID3
+	case 3:
+		return dCID4
+	}
+	return dClients[k]
+}
+
+// clientOfReply attributes a reply to the client whose message is being answered when the hardware address matches
+// (c1 and c4 share one), else to the first client with that hardware address.
+func clientOfReply(chaddr []byte, reqK int) int {
+	if reqK >= 0 && bytes.Equal(chaddr, dClients[reqK]) {
+		return reqK
+	}
+	return clientOf(chaddr)
 }
 
 func clientOf(chaddr []byte) int {
@@ -173,6 +198,13 @@ type dhcpOpts struct {
 	layout int
 }
 
+// ackImage: what a crash right after the transmission of an ACK would leave on the device.
+type ackImage struct {
+	k     int
+	ip    netip.Addr
+	files map[string][]byte
+}
+
 type dhcpStep struct {
 	replies []string
 	snap    string
@@ -185,14 +217,15 @@ type dhcpResult struct {
 	violations []string
 	predicted  bool
 	// for C18
-	files   [][]byte // content of the lease file after each step
-	written [][]byte // every complete image the lease file went through (in order)
-	ops     []vfs.Op // every operation on the in-memory device, in order
-	opsAt   []int    // len(ops) at the end of each step (opsAt[0]: after construction)
-	leases  []dhcp4.VerifLease
-	endTime int64     // virtual time at the end of the history (a restart happens at that time)
-	acked   []binding // acknowledged bindings according to the observer (the truth for C18)
-	maybe   []binding // bindings that may or may not survive
+	files     [][]byte   // content of the lease file after each step
+	written   [][]byte   // every complete image the lease file went through (in order)
+	ackImages []ackImage // the content of the device at the moment each ACK was transmitted
+	ops       []vfs.Op   // every operation on the in-memory device, in order
+	opsAt     []int      // len(ops) at the end of each step (opsAt[0]: after construction)
+	leases    []dhcp4.VerifLease
+	endTime   int64     // virtual time at the end of the history (a restart happens at that time)
+	acked     []binding // acknowledged bindings according to the observer (the truth for C18)
+	maybe     []binding // bindings that may or may not survive
 }
 
 func dhcpNIC() *packet.NICInfo {
@@ -205,11 +238,12 @@ func dhcpConfig(mode dhcp4.Mode) dhcp4.Config {
 
 func dhcpFrame(k int, msgType byte, xid uint32, srcIP, dstIP netip.Addr, ciaddr netip.Addr, opts [][2][]byte) []byte {
 	all := [][2][]byte{{{53}, {msgType}}}
-	if k == 2 {
-		all = append(all, [2][]byte{{61}, dCID3})
+	if k >= 2 {
+		all = append(all, [2][]byte{{61}, dID(k)})
 	}
 	all = append(all, opts...)
-	all = append(all, [2][]byte{{55}, {1, 3, 6, 15}}, [2][]byte{{12}, []byte(fmt.Sprintf("host%d", k+1))})
+	prl := [][]byte{{1, 3, 6, 15}, {6, 3}, {3, 1, 6}, {1, 3, 6, 15}}[k]
+	all = append(all, [2][]byte{{55}, prl}, [2][]byte{{12}, []byte(fmt.Sprintf("host%d", k+1))})
 	msg := refnet.DHCP4Msg{Op: 1, XID: xid, CHAddr: dClients[k], CIAddr: ciaddr, Options: all}.Bytes()
 	dstMAC := bcast
 	if dstIP == dHost {
@@ -251,6 +285,14 @@ func runDHCP(alpha []dEvent, hist []int, o dhcpOpts) *dhcpResult {
 		vsched.WaitIdle()
 		conn.Take()
 		res.opsAt = append(res.opsAt, len(vfs.Log()))
+		curK := -1
+		conn.OnWrite = func(b []byte) {
+			if info := refnet.DecodeSent(b, env.HostMAC); info.Kind == "dhcp4" && info.DHCP != nil && info.DHCP.Op == 2 && info.SrcPort == 67 && info.DHCP.MsgType == 5 {
+				if k := clientOfReply(info.DHCP.CHAddr, curK); k >= 0 && len(res.ackImages) < 8 {
+					res.ackImages = append(res.ackImages, ackImage{k, info.DHCP.YIAddr, vfs.Files()})
+				}
+			}
+		}
 		obs := newObserver()
 		shared := make([]byte, 2048)
 		failed := false
@@ -265,6 +307,7 @@ func runDHCP(alpha []dEvent, hist []int, o dhcpOpts) *dhcpResult {
 			}
 			var reqXID uint32
 			var reqK = -1
+			curK = ev.K
 			func() {
 				defer func() {
 					if e := recover(); e != nil {
@@ -314,7 +357,7 @@ func runDHCP(alpha []dEvent, hist []int, o dhcpOpts) *dhcpResult {
 						req = dIP(3)
 					case "other":
 						// the address offered or acknowledged to another client
-						for k := 0; k < 3; k++ {
+						for k := 0; k < len(dClients); k++ {
 							if k != ev.K {
 								if a, ok := obs.acks[k]; ok {
 									req = a.ip
@@ -360,7 +403,7 @@ func runDHCP(alpha []dEvent, hist []int, o dhcpOpts) *dhcpResult {
 						deliver(dhcpFrame(ev.K, 3, reqXID, zero, bc, netip.Addr{}, [][2][]byte{{{50}, dIP(3).AsSlice()}, {{54}, dHost.AsSlice()}}))
 					case "other":
 						req := dIP(3)
-						for k := 0; k < 3; k++ {
+						for k := 0; k < len(dClients); k++ {
 							if a, ok := obs.acks[k]; ok && k != ev.K {
 								req = a.ip
 							}
@@ -380,6 +423,22 @@ func runDHCP(alpha []dEvent, hist []int, o dhcpOpts) *dhcpResult {
 							ip = a.ip
 						}
 						deliver(dhcpFrame(ev.K, 3, reqXID, ip, dHost, ip, nil))
+					case "otherrenew":
+						ip := dIP(2)
+						if a, ok := obs.acks[ev.K]; ok {
+							ip = a.ip
+						}
+						// (the message is not a valid selection of the other server - no requested address -, so the binding
+						// the client holds with us is not considered abandoned; what matters is that it is never ACKed)
+						deliver(dhcpFrame(ev.K, 3, reqXID, ip, dHost, ip, [][2][]byte{{{54}, dRouter.AsSlice()}}))
+					case "rebootother": // INIT-REBOOT for the address that is acknowledged to another client identifier
+						ip := dIP(2)
+						for k := 0; k < len(dClients); k++ {
+							if a, ok := obs.acks[k]; ok && k != ev.K {
+								ip = a.ip
+							}
+						}
+						deliver(dhcpFrame(ev.K, 3, reqXID, zero, bc, netip.Addr{}, [][2][]byte{{{50}, ip.AsSlice()}}))
 					case "reboot":
 						ip := dIP(3)
 						if a, ok := obs.acks[ev.K]; ok {
@@ -443,10 +502,7 @@ func runDHCP(alpha []dEvent, hist []int, o dhcpOpts) *dhcpResult {
 				// C07: a DECLINE/RELEASE forced towards the real server carries the fields of the client it is sent for
 				if info.Kind == "dhcp4" && info.DHCP != nil && info.DHCP.Op == 1 && info.DstPort == 67 && (info.DHCP.MsgType == 4 || info.DHCP.MsgType == 7) && reqK >= 0 {
 					d := info.DHCP
-					wantID := dClients[reqK]
-					if reqK == 2 {
-						wantID = dCID3
-					}
+					wantID := dID(reqK)
 					x := uint32(d.XID[0])<<24 | uint32(d.XID[1])<<16 | uint32(d.XID[2])<<8 | uint32(d.XID[3])
 					switch {
 					case !bytes.Equal(d.CHAddr, dClients[reqK]):
@@ -464,7 +520,7 @@ func runDHCP(alpha []dEvent, hist []int, o dhcpOpts) *dhcpResult {
 					continue // attack bursts and forced declines towards the real server
 				}
 				d := info.DHCP
-				k := clientOf(d.CHAddr)
+				k := clientOfReply(d.CHAddr, reqK)
 				if k < 0 {
 					continue
 				}
@@ -567,7 +623,7 @@ func runDHCP(alpha []dEvent, hist []int, o dhcpOpts) *dhcpResult {
 					obs.offerXID[k] = reqXID
 				}
 			}
-			if ev.Kind == "request" && ev.Req == "otherserver" {
+			if ev.Kind == "request" && (ev.Req == "otherserver" || ev.Req == "otherrenew") {
 				for _, r := range step.replies {
 					if strings.HasPrefix(r, "5:") {
 						fail("segregate", "ack-other-server", "ACK sent although the client selected another server")
@@ -588,25 +644,19 @@ func runDHCP(alpha []dEvent, hist []int, o dhcpOpts) *dhcpResult {
 		res.leases = h.VerifLeases()
 		res.endTime = vsched.NowNanos()
 		obs.expire(res.endTime)
-		for k := 0; k < 3; k++ {
+		for k := 0; k < len(dClients); k++ {
 			if a, ok := obs.lease[k]; ok {
-				id := hex.EncodeToString(dClients[k])
-				if k == 2 {
-					id = hex.EncodeToString(dCID3)
-				}
+				id := hex.EncodeToString(dID(k))
 				res.acked = append(res.acked, binding{id, hex.EncodeToString(dClients[k]), a.ip})
 			}
 		}
 		sort.Slice(res.acked, func(i, j int) bool { return res.acked[i].id < res.acked[j].id })
-		for k := 0; k < 3; k++ {
+		for k := 0; k < len(dClients); k++ {
 			if a, ok := obs.maybe[k]; ok && res.endTime < a.expiry {
 				if _, held := obs.lease[k]; held {
 					continue
 				}
-				id := hex.EncodeToString(dClients[k])
-				if k == 2 {
-					id = hex.EncodeToString(dCID3)
-				}
+				id := hex.EncodeToString(dID(k))
 				res.maybe = append(res.maybe, binding{id, hex.EncodeToString(dClients[k]), a.ip})
 			}
 		}
